@@ -3,7 +3,9 @@
 A case is JSON-able:
   {'mods': [spec, ...],           static modules in declaration order
    'dyn':  [spec, ...],           modules that only exist as the product of a Pinata's scanModules
-   'sched': None | [choices]}     schedule prefix for vlib.sched (None: never preempt)
+   'sched': None | [choices],     schedule prefix for vlib.sched (None: never preempt)
+   'rounds': n,                   optional: turns of the loop of Server.run on the same Server object (restart), default 1
+   'share': bool}                 optional: equal parameter dictionaries of the configuration are ONE Param object
   spec = {'name', 'cls': 'L'|'IO'|'HIO'|'PIN', 'export': bool, 'poll': bool,
           'params': [[pname, has_write, cls_default, cls_value, cfg_default, cfg_value(, needscfg, bad)]],   parameters of the class, in the order of
                     its accessibles: is there a write_<pname> method, Parameter(default=, value=) of the declaration and
@@ -406,10 +408,19 @@ def run_case(case, policy=None, max_steps=200000):
 
     # the Server object: what Server.__init__ loaded from the configuration files is kept for its whole life - a restart
     # (second round of Server.run) calls _processCfg again on the SAME object, the same module_cfg, the same Param dicts
+    module_cfg = {sp['name']: cfg_of(sp) for sp in case['mods']}
+    if case.get('share'):
+        # one Param object written once in the configuration file and used for several parameters / modules
+        # (`p = Param(1); Mod('a', ..., w0=p); Mod('b', ..., w0=p)`): equal parameter dictionaries are ONE object
+        pool = {}
+        for mc in module_cfg.values():
+            for k, v in list(mc.items()):
+                if isinstance(v, dict):
+                    mc[k] = pool.setdefault(json.dumps(v, sort_keys=True), v)
     stub = types.SimpleNamespace(
         name='node', log=LoggerStub(), _testonly=False,
         node_cfg={'cls': 'frappy.protocol.dispatcher.Dispatcher', 'description': 'c15'},
-        module_cfg={sp['name']: cfg_of(sp) for sp in case['mods']},
+        module_cfg=module_cfg,
         restart=None, shutdown=None, secnode=None, dispatcher=None)
     fake_sys = types.SimpleNamespace(stderr=_io.StringIO(), exit=sys.exit)
 
@@ -885,6 +896,8 @@ def features(case):
             items.append(('sched', i))
     if (case.get('rounds') or 1) > 1:
         items.append(('rounds',))
+    if case.get('share'):
+        items.append(('share',))
     return items
 
 
@@ -921,6 +934,8 @@ def rebuild(case, items):
         out['sched'] = [c if ('sched', i) in items else 0 for i, c in enumerate(sched)]
     if ('rounds',) in items:
         out['rounds'] = case['rounds']
+    if ('share',) in items:
+        out['share'] = True
     return out
 
 
@@ -1018,6 +1033,11 @@ META = {
                   'startup_sequence_complete, no_write_after_first_poll, comm_failure_writes_made_up, '
                   'unrepaired_prologue_skips_writes, repair_changes_only_broken_off_rounds; rejected_parameter_reported (a '
                   'configured value that is not of the datatype / a missing required value makes the node report an error).  '
+                  'Restart (further rounds of Server.run on the same Server object): restart_same_configuration (FULL for nodes '
+                  'without Pinatas: a round hands srv.module_cfg to the next one exactly as it was loaded), hence '
+                  'restart_round_like_first (the life of round k is the first life: every whole-run theorem holds for every '
+                  'round against the loaded configuration), restart_start_values_kept; restart_rounds_statement (nodes with '
+                  'Pinatas, whose products are entries of module_cfg from round 2 on) is NOT proved (one checked instance).  '
                   'NOT proved, kept as statements: init_order_once_statement (missing: a clean configuration produces no error; '
                   'existence of Pinata products and automatic communicators), bad_attachment_reported first half, shutdown_order '
                   'against the declared attachments, writes_before_first_poll_statement without the hypothesis StaticPinatas; for '
@@ -1030,7 +1050,10 @@ META = {
                   'multievent.py is re-executed from source with the scheduler\'s threading/time; the instrumented classes log '
                   'before calling super(); injected faults are raised by the instrumented write_/initialReads/read_ methods '
                   '(a communication failure is logged as part of the observation); the instrumented write_<p> records the value '
-                  'it is handed (after the conversion by the datatype in the generated wrapper).',
+                  'it is handed (after the conversion by the datatype in the generated wrapper); the state of an attached module '
+                  '(earlyInitDone, initModuleDone, _isinitialized) is read by the instrumented hook of its user at the moment of '
+                  'the access; a restart is a further call of Server._processCfg / shutdown_modules on the same Server stub and '
+                  'the same module_cfg objects.',
     'trusted': [
         'vlib.sched: gated real threads + virtual clock reproduce an admissible interleaving of the real threads',
         'the instrumented module classes (log, then super(), then the injected fault) do not change the lifecycle',
@@ -1046,13 +1069,17 @@ META = {
         'is observed for it (it keeps the module in a poll thread: modelled and compared)',
         'the poll loop after the first polls (only the late writeInitParams and the first poll of each module in the main loop '
         'after a broken-off start-up sequence are modelled); reconnect callbacks',
-        'Dispatcher, interfaces, daemonising, signal handling, restart',
+        'Dispatcher, interfaces, daemonising, signal handling; of Server.run only the sequence _processCfg ... '
+        'shutdown_modules per round (restart_hook, systemd notifications, closing of the interfaces are not run)',
     ],
     'assumptions': ['Pinatas are declared statically and have no attachments of their own (hypothesis StaticPinatas of '
                     'writes_before_first_poll / start_values_handed_over / rejected_parameter_reported)',
                     'module names are distinct from the names of automatically created communicators; module names and parameter '
                     'names are dictionary keys (Nodup hypotheses)',
-                    'exceptions raised by drivers are Exception subclasses (no BaseException)'],
+                    'exceptions raised by drivers are Exception subclasses (no BaseException)',
+                    'restart: a round leaves the loaded descriptions (module_cfg entries, their parameter dictionaries) unchanged - '
+                    'the modelling assumption behind restartCfg; not a theorem about the code, checked on every restarted case by '
+                    'predicting and judging every round on its own'],
 }
 
 
@@ -1111,6 +1138,8 @@ def run(ctx):
         policy = None
         if kind not in ('corpus', 'restart') and rng.random() < 0.06:
             case['rounds'] = 2              # any case of any stream may be a node that is restarted
+        if kind != 'corpus' and rng.random() < 0.1:
+            case['share'] = True            # equal parameter dictionaries of the configuration are one Param object
         if case.pop('_random_sched', False):
             policy = vsched.RandomPolicy(random.Random(rng.random()), 0.3)
         obs, raw = observe(case, policy)
@@ -1211,6 +1240,8 @@ def run(ctx):
                 small, o2 = case, obs
             seen_sigs.add(signature(small, clause, o2))
             rnd = f' (round {o2["round"] + 1} of the same Server object: after a restart)' if o2['round'] else ''
+            if small.get('share'):
+                rnd += ' (equal parameter dictionaries of the configuration are one Param object)'
             res.violations.append({'sig': signature(small, clause, o2),
                                    'what': f'{clause} broken{rnd}: cfg={json.dumps(wire_cfg(small))} '
                                            f'log={[" ".join(e) for e in o2["log"]]} errors={o2["errors"]}'
@@ -1225,7 +1256,7 @@ def replay(ctx, rp):
     case = rp['case']
     clause = (rp.get('detail') or {}).get('clause')
     bad = False
-    print('cfg    :', json.dumps(wire_cfg(case)), ' rounds:', case.get('rounds') or 1)
+    print('cfg    :', json.dumps(wire_cfg(case)), ' rounds:', case.get('rounds') or 1, ' shared Param objects:', bool(case.get('share')))
     for obs, model, judge in judge_case(ctx, case):
         follow = ctx.driver.batch(requests_for(case, obs)[2:])[0]
         print('--- round', obs['round'] + 1)
